@@ -54,7 +54,7 @@ func c16Same(got, want *z.StructSchema, in map[string]any, d1, d2 *c16Dest) bool
 
 func C16_Jobs() []string {
 	var out []string
-	for _, op := range []string{"pick", "omit", "extend", "merge", "merge3", "transforms", "pick-map", "omit-map", "chain"} {
+	for _, op := range []string{"pick", "omit", "extend", "merge", "merge3", "transforms", "pick-map", "omit-map", "chain", "merge-sizes"} {
 		for k := 0; k <= 3+3*v.Tier(); k++ { // number of struct tests on the base (spare capacity varies)
 			out = append(out, op+"/t"+string(rune('0'+k)))
 		}
@@ -103,6 +103,12 @@ func C16_Run(job string) {
 		return s
 	}
 	base := mkBase()
+	if v.Choice("base-used-first", 2) == 1 {
+		// the operand has already been executed (both modes) when the derivation happens
+		d0 := c16Dest{A: 1, B: 1, C: 1}
+		base.Parse(in, &d0)
+		base.Validate(&d0)
+	}
 	var d1, d2 c16Dest
 	check := func(got, want *z.StructSchema, label string) {
 		v.Assert(c16Same(got, want, in, &d1, &d2), label)
@@ -151,6 +157,23 @@ func C16_Run(job string) {
 		check(base, hand([]string{"a", "b", "c"}), "C16:derivation-modified-its-operand")
 		wantOther := z.Struct(z.Schema{"d": c16Field(td), "a": c16Field(td)}).Test(c16Test("o0"))
 		check(other, wantOther, "C16:derivation-modified-its-operand")
+	case "merge-sizes":
+		// later operands win whatever the relative sizes of the field maps
+		small := z.Struct(z.Schema{"a": c16Field(td)}).Test(c16Test("s"))
+		big := z.Struct(z.Schema{"a": c16Field(ta), "b": c16Field(tb), "c": c16Field(tc), "d": c16Field(td)})
+		for i := 0; i < k; i++ {
+			big = big.Test(c16Test("base" + string(rune('0'+i))))
+		}
+		x := small.Merge(big) // receiver smaller: the operand's "a" wins
+		wantX := z.Struct(z.Schema{"a": c16Field(ta), "b": c16Field(tb), "c": c16Field(tc), "d": c16Field(td)}).Test(c16Test("s"))
+		for i := 0; i < k; i++ {
+			wantX = wantX.Test(c16Test("base" + string(rune('0'+i))))
+		}
+		check(x, wantX, "C16:merge-differs-from-handwritten")
+		y := base.Merge(small) // receiver bigger: the operand's "a" wins
+		check(y, hand([]string{"a2", "b", "c"}, "s"), "C16:merge-differs-from-handwritten")
+		w := small.Merge(z.Struct(z.Schema{"b": c16Field(tb)}), big) // variadic, growing
+		check(w, wantX, "C16:merge-differs-from-handwritten")
 	case "merge3":
 		// variadic Merge: fields, tests and PostTransforms of every operand, in order
 		log := ""
@@ -231,7 +254,7 @@ func C17_Jobs() []string {
 	for _, op := range c17NotOps {
 		out = append(out, "not/"+op)
 	}
-	out = append(out, "not-scope", "not-empty-arg", "lastcall/int", "lastcall/str", "lastcall/slice", "lastcall/bool", "lastcall/float", "lastcall/time", "lastcall/options", "options/local", "options/shared-test", "options/not-moved", "not-with-options", "coercer/local", "coercer/slice", "shared/fields", "shared/slice")
+	out = append(out, "not-scope", "not-empty-arg", "lastcall/int", "lastcall/str", "lastcall/slice", "lastcall/bool", "lastcall/float", "lastcall/time", "lastcall/options", "options/local", "options/shared-test", "options/not-moved", "not-with-options", "coercer/local", "coercer/slice", "coercer/nested", "shared/fields", "shared/slice")
 	return out
 }
 func C17_Covers() []string { return []string{"checked"} }
@@ -424,6 +447,30 @@ func C17_Run(job string) {
 		}
 		v.Assert(len(errs) == v.B2I(!(x > g))+v.B2I(!(x < l)), "C17:options-changed-the-verdict")
 	case "coercer":
+		if b == "nested" {
+			// WithCoercer on an outer schema (slice of slices, slice of pointers to slices, slice of
+			// structs) configures that schema only: the nested schemas keep their own coercion, also
+			// where the same nested schema object is used elsewhere
+			calls := 0
+			outer := func(x any) (any, error) { calls++; return x, nil }
+			k := v.Int("k")
+			inner := z.Slice(z.Int())
+			innerP := z.Slice(z.Int())
+			var d1 [][]int
+			var d2 []*[]int
+			var d3 []int
+			e1 := z.Slice(inner, z.WithCoercer(outer)).Parse([]any{k, []any{1, 2}}, &d1)
+			v.Assert(e1 == nil && calls == 1 && len(d1) == 2 && len(d1[0]) == 1 && d1[0][0] == k && len(d1[1]) == 2, "C17:withcoercer-leaked")
+			e2 := z.Slice(z.Ptr(innerP), z.WithCoercer(outer)).Parse([]any{k}, &d2)
+			v.Assert(e2 == nil && calls == 2 && len(d2) == 1 && d2[0] != nil && len(*d2[0]) == 1 && (*d2[0])[0] == k, "C17:withcoercer-leaked")
+			// the nested schema objects on their own still box a scalar with the default coercer
+			e3 := inner.Parse(k, &d3)
+			v.Assert(e3 == nil && calls == 2 && len(d3) == 1 && d3[0] == k, "C17:withcoercer-leaked")
+			e3 = innerP.Parse(k, &d3)
+			v.Assert(e3 == nil && calls == 2 && len(d3) == 1, "C17:withcoercer-leaked")
+			v.Cover("checked")
+			return
+		}
 		if b == "slice" {
 			// WithCoercer on a slice schema replaces the coercion of that schema for every input
 			calls := 0
